@@ -35,6 +35,10 @@ func payload(r *rand.Rand, n, style int) hx.B {
 		for i := range b {
 			b[i] = s[i%len(s)]
 		}
+	case 5: // payloads that start with byte sequences other software gives a meaning to (they are just bytes here)
+		r.Read(b)
+		pre := [][]byte{{0xEF, 0xBB, 0xBF}, {0xFF, 0xFE}, {0xFE, 0xFF}, {0x00}, {0xFF, 0x2F, 0x00}, {0x0D, 0x0A}, {0x7F}, {0xF0}, {0xF7}}[r.Intn(9)]
+		copy(b, pre)
 	default:
 		r.Read(b)
 	}
@@ -161,7 +165,7 @@ func cmdGen(args []string) {
 			if !thorough && n > 1000 && (ki+li+int(*seed))%3 != 0 && k != "seqdata" {
 				continue
 			}
-			put(Call{Ctor: k, Data: payload(r, n, (ki+li+int(*seed))%5)})
+			put(Call{Ctor: k, Data: payload(r, n, (ki+li+int(*seed))%6)})
 		}
 	}
 	nr := 400
@@ -174,7 +178,7 @@ func cmdGen(args []string) {
 		if k == "seqdata" && n == 0 {
 			n = 1
 		}
-		put(Call{Ctor: k, Data: payload(r, n, r.Intn(5))})
+		put(Call{Ctor: k, Data: payload(r, n, r.Intn(6))})
 	}
 
 	// --- channel, port: every value
@@ -199,6 +203,27 @@ func cmdGen(args []string) {
 	// --- SMPTE offsets
 	for _, v := range []int{0, 1, 127, 128, 255} {
 		put(Call{Ctor: "smpte", A: []int{v, v, v, v, v}})
+	}
+	// structured: the hour byte carries the frame-rate bits (bits 5-6) besides the hour; small sets per field, full product
+	// (a third of it in the quick tier, rotating with the seed)
+	{
+		k := 0
+		for rate := 0; rate < 4; rate++ {
+			for _, h := range []int{0, 1, 12, 23} {
+				for _, mi := range []int{0, 1, 9, 10, 11, 59} {
+					for _, se := range []int{0, 1, 59} {
+						for _, fr := range []int{0, 1, 2, 23, 24, 28, 29} {
+							for _, ff := range []int{0, 1, 99} {
+								k++
+								if thorough || (k+int(*seed))%3 == 0 {
+									put(Call{Ctor: "smpte", A: []int{rate<<5 | h, mi, se, fr, ff}})
+								}
+							}
+						}
+					}
+				}
+			}
+		}
 	}
 	ns := 300
 	if thorough {
@@ -260,7 +285,7 @@ func cmdGen(args []string) {
 		if i < len(boundaryLens) {
 			n = boundaryLens[i]
 		}
-		put(Call{Ctor: "undefined", A: []int{r.Intn(128)}, Data: payload(r, n, r.Intn(5))})
+		put(Call{Ctor: "undefined", A: []int{r.Intn(128)}, Data: payload(r, n, r.Intn(6))})
 	}
 	put(Call{Ctor: "eot"})
 	w.Close()
